@@ -132,3 +132,34 @@ fn c15_packing_injective() {
     kani::cover!(same_desc && n1 == 8);
     kani::cover!(!same_desc && n1 == n2 && p1 == p2 && n1 > 0);
 }
+
+/// The checked conversion used when a type is deserialized: `None` exactly for
+/// a container over an already 32-layer type, otherwise the same value
+/// `from_type` gives (never a panic).
+#[kani::proof]
+fn c15_checked_from_type() {
+    let (prim, prim_ty) = any_primitive();
+    let layers: u32 = kani::any();
+    let len: u8 = kani::any();
+    kani::assume(len <= 32);
+    kani::assume(len == 32 || layers >> len == 0);
+    let inner = CompoundType { layers, len, primitive: prim };
+    let which: u8 = kani::any();
+    kani::assume(which < 3);
+    let ty = match which {
+        0 => prim_ty,
+        1 => Type::Array(inner),
+        _ => Type::Map(inner),
+    };
+    let r = CompoundType::checked_from_type(ty);
+    if which != 0 && len == 32 {
+        assert!(r.is_none(), "a type deeper than 32 layers must be refused, not packed");
+    } else {
+        assert!(r.is_some(), "representable type refused");
+        assert!(r == Some(CompoundType::from_type(ty)), "checked and unchecked conversions differ");
+        assert!(r.unwrap().into_type() == ty, "conversion is not invertible");
+    }
+    kani::cover!(r.is_none());
+    kani::cover!(r.is_some() && len == 31 && which == 2);
+    kani::cover!(which == 0);
+}
